@@ -92,6 +92,15 @@ def ev(f, env):
         head = items[0]
         if isinstance(head, sym.Symbol) and head.ns is None and head.name in SPECIAL and head.name not in env:
             return ev_special(head.name, items[1:], env)
+        if isinstance(head, sym.Symbol) and head.ns is None and head.name.startswith(".-") and len(head.name) > 2 and head.name not in env:
+            return getattr(ev(items[1], env), head.name[2:].replace("-", "_"))       # (.-attr target): one evaluation of target
+        if isinstance(head, sym.Symbol) and head.ns is None and head.name == "." and "." not in env:
+            target = ev(items[1], env)                       # (. target -attr) / (. target method args...)
+            member = items[2]
+            if member.name.startswith("-"):
+                return getattr(target, member.name[1:].replace("-", "_"))
+            margs = [ev(a, env) for a in items[3:]]
+            return getattr(target, member.name.replace("-", "_"))(*margs)
         if isinstance(head, sym.Symbol) and head.ns is None and head.name.startswith(".") and len(head.name) > 1 and head.name not in env:
             target = ev(items[1], env)                       # (.method target args...): target, then args, left to right
             margs = [ev(a, env) for a in items[2:]]
